@@ -924,7 +924,8 @@ def run(tier, seed, replay=None):
         v = oracle(case, obs)
         print("oracle:", v)
         return 1 if v and v[1] not in ctx.known else 0
-    ok = core.proof_stage(ctx, ["Props/C08.vo"], gen_needed=("Traversals",))
+    ok = core.proof_stage(ctx, ["Props/C08.vo", "Props/C08Gen.vo"], gen_needed=("Traversals", "Mutators", "Extract"))
+    ok = core.proof_stage(ctx, ["Props/C08Gen.vo"], props_file="Props/C08Gen.v", gen_needed=("Mutators", "Extract")) and ok
     if not ok:
         core.broken_proof(ctx, search)
     rng = ctx.rng
